@@ -149,6 +149,34 @@ CHECKS["C15"] = dict(
     note="Trusted: Coq kernel + VM, the hand model of routing.py and of single-inheritance attribute lookup (compared). "
          "Multiple inheritance / metaclasses are outside the model.", design="4/C15")
 
+NET_NOTE = ("Trusted: Coq kernel + VM, translator, the hand models of dispatch and call composed in Model/Net.v (tied by running "
+            "two / three real endpoints over in-memory connections with real receive loops and comparing both frames, the "
+            "handlers' keywords and the caller's outcome), CPython json/dataclasses.asdict.")
+CHECKS["C06"] = dict(
+    technique="Rocq theorems on what is written (no null; nulls only are dropped) + loopback correspondence over all 103 actions",
+    text="C06_no_null_obj (for every object, remove_nones leaves no null at any depth), C06_falsy_kept, with C10 (name "
+         "bijection on the vocabulary) and C11 (classes = schemas) carrying the key mapping; the composition A.call -> wire -> "
+         "B.route_message -> wire -> A is an executable Gallina function (Model/Net.v loopback) compared, for every action and "
+         "several schema-valid request/response instances, with two real endpoints: both frames, the handler's keywords, the "
+         "returned object, nested values as data-type objects or dicts. PARTIAL: the key-mapping round trip of whole payload "
+         "trees is proved per name (C10), not yet as a theorem about rekey over trees.",
+    note=NET_NOTE, design="4/C06")
+CHECKS["C09"] = dict(
+    technique="Rocq theorems (codes distinct; raised error -> frame -> to_exception round trip; fixed InternalError frame; unknown codes) + error transport correspondence",
+    text="C09_codes_distinct and C09_all_classes_reachable (tables regenerated from exceptions.py, classes enumerated without "
+         "__subclasses__), C09_raised_on_wire, C09_transport (same class, description, details; None under suppression), "
+         "C09_internal (the frame for a non-OCPP exception is a constant), C09_unknown. Tied by every class x descriptions x "
+         "details x suppression through two real endpoints, ten foreign exception types with secret markers searched in every "
+         "frame, and all defined / ~80 undefined codes injected as CALLERROR.",
+    note=NET_NOTE, design="4/C09")
+CHECKS["C19"] = dict(
+    technique="Rocq theorems (re-tagging idempotent; verdict invariant under re-tagging; digits stable over a second hop) + relay correspondence",
+    text="C19_retag_idempotent, C19_verdict_unchanged (for every schema and payload the decimal-mode verdict does not depend "
+         "on whether numbers arrive as floats or as the exact decimals the library itself produced), C19_second_hop_digits. "
+         "Tied by relaying, for every action, schema-valid requests and responses through three real endpoints whose middle "
+         "handler forwards exactly the keywords it received and returns the object call() gave it.",
+    note=NET_NOTE, design="4/C19")
+
 PENDING_REASON = "check not built yet in this round (work in progress; see DESIGN.md section 9)"
 
 
